@@ -108,20 +108,43 @@ func c18Run(r *runCtx, id string, f []string) {
 	var obs []string
 	var bad []string
 	var wantDelivered []string
+	// a new file that appears at a tailed path (created or renamed there) while the stream still
+	// holds the previous file: what is appended to it is seen when the stream next wakes, if the
+	// file is still at the path then
+	fresh := map[string]bool{}
+	pending := map[string][]string{}
+	isTailedPath := func(full string) bool {
+		for _, t := range env.ta.VerifStreamPaths() {
+			if t == full {
+				return true
+			}
+		}
+		return false
+	}
 	for step, op := range ops {
 		p := strings.Split(op, ":")
 		switch p[0] {
 		case "cf":
 			if _, err := os.Lstat(filepath.Join(root, p[1])); err != nil {
 				_ = os.WriteFile(filepath.Join(root, p[1]), nil, 0o644)
+				if isTailedPath(filepath.Join(root, p[1])) {
+					fresh[p[1]] = true
+				}
 			}
 		case "md":
 			_ = os.Mkdir(filepath.Join(root, p[1]), 0o755)
 		case "rm":
 			_ = os.Remove(filepath.Join(root, p[1]))
+			delete(pending, p[1])
 		case "mv":
 			if _, err := os.Lstat(filepath.Join(root, p[2])); err != nil {
-				_ = os.Rename(filepath.Join(root, p[1]), filepath.Join(root, p[2]))
+				if _, err1 := os.Lstat(filepath.Join(root, p[1])); err1 == nil {
+					_ = os.Rename(filepath.Join(root, p[1]), filepath.Join(root, p[2]))
+					delete(pending, p[1])
+					if isTailedPath(filepath.Join(root, p[2])) {
+						fresh[p[2]] = true
+					}
+				}
 			}
 		case "ap":
 			full := filepath.Join(root, p[1])
@@ -137,7 +160,11 @@ func c18Run(r *runCtx, id string, f []string) {
 					_, _ = fh.Write([]byte(unhx(p[2]) + "\n"))
 					fh.Close()
 					if isTailed {
-						wantDelivered = append(wantDelivered, p[1]+"="+p[2])
+						if fresh[p[1]] {
+							pending[p[1]] = append(pending[p[1]], p[1]+"="+p[2])
+						} else {
+							wantDelivered = append(wantDelivered, p[1]+"="+p[2])
+						}
 					}
 				}
 			}
@@ -147,8 +174,11 @@ func c18Run(r *runCtx, id string, f []string) {
 			for _, t := range env.ta.VerifStreamPaths() {
 				if fi, err := os.Stat(t); err == nil && fi.Mode().IsRegular() {
 					surv++
+					wantDelivered = append(wantDelivered, pending[rel(t)]...)
 				}
 			}
+			fresh = map[string]bool{}
+			pending = map[string][]string{}
 			want := eligible()
 			env.observe(surv, len(want), len(tpats))
 			got := tailed()
